@@ -1,7 +1,47 @@
-//! C08: not built yet.
-use anyhow::{bail, Result};
-use serde_json::Value;
+//! C08: Mappings::reorder.
+//!
+//! ops  {"op":"reorder","M":tree,"order":[ns..]} -> {"first":{ok,v}, "back":{ok,v}|[]}
+//!      first = M.reorder(order); back = first.reorder(M's own namespace order) when first succeeded
+use anyhow::{bail, Context, Result};
+use rand::rngs::StdRng;
+use rand::seq::SliceRandom;
+use rand::{Rng, SeedableRng};
+use serde_json::{json, Value};
+use quill::tree::mappings::Mappings;
+use crate::gen_quill::*;
+use crate::proj_quill::*;
+use super::res_tree;
 
-pub fn exec(_v: &Value) -> Result<Value> { bail!("C08: driver not built") }
+fn run<const N: usize>(v: &Value) -> Result<Value> {
+	let m: Mappings<N, Ns> = json_to_tree(&v["M"])?;
+	let order: Vec<&str> = v["order"].as_array().context("order")?.iter().map(|x| x.as_str().unwrap_or("")).collect();
+	let order: [&str; N] = order.try_into().map_err(|_| anyhow::anyhow!("order length"))?;
+	let own: Vec<String> = v["M"]["ns"].as_array().context("ns")?.iter().map(|x| x.as_str().unwrap_or("").to_owned()).collect();
+	let own: Vec<&str> = own.iter().map(|x| x.as_str()).collect();
+	let own: [&str; N] = own.try_into().map_err(|_| anyhow::anyhow!("ns length"))?;
+	let first = m.reorder::<Ns>(order);
+	let back = match &first { Ok(f) => res_tree(f.reorder::<Ns>(own)), Err(_) => json!([]) };
+	Ok(json!({"first": res_tree(first), "back": back}))
+}
 
-pub fn gen(_seed: u64, _n: usize) -> Result<Vec<Value>> { bail!("C08: driver not built") }
+pub fn exec(v: &Value) -> Result<Value> {
+	match v["M"]["ns"].as_array().map(|a| a.len()) {
+		Some(2) => run::<2>(v), Some(3) => run::<3>(v), Some(4) => run::<4>(v),
+		n => bail!("unsupported N {n:?}"),
+	}
+}
+
+pub fn gen(seed: u64, n: usize) -> Result<Vec<Value>> {
+	let mut r = StdRng::seed_from_u64(seed ^ 0xC08);
+	let mut out = vec![];
+	while out.len() < n {
+		let nn = *pick(&mut r, &[2usize, 3, 3, 4]);
+		let cfg = TreeCfg { n: nn, classes: r.gen_range(0..12), p_missing: *pick(&mut r, &[0.0, 0.0, 0.05, 0.3]), unicode: r.gen_bool(0.3),
+			param_src: r.gen_bool(0.5), root_doc: r.gen_bool(0.3), missing_in: if r.gen_bool(0.5) { vec![nn - 1] } else { vec![] }, ..TreeCfg::default() };
+		let m = gen_tree(&mut r, &cfg);
+		let mut order: Vec<Value> = m["ns"].as_array().cloned().unwrap_or_default();
+		order.shuffle(&mut r);
+		out.push(json!({"op": "reorder", "M": m, "order": order}));
+	}
+	Ok(out)
+}
